@@ -125,7 +125,11 @@ func cmdCheck(args []string) {
 	if tier == "thorough" {
 		tmo = 60 * time.Second
 	}
-	outDir := filepath.Join(vd, "out", id)
+	od := vd
+	if o := os.Getenv("GOCV_OUT"); o != "" {
+		od = o
+	}
+	outDir := filepath.Join(od, "out", id)
 	os.RemoveAll(outDir)
 	os.MkdirAll(outDir, 0o755)
 	res := V.verifyFunctions(fns, lemmas, solveOpts{timeout: tmo, seed: seed, outDir: outDir, workers: 16})
@@ -138,7 +142,7 @@ func cmdCheck(args []string) {
 			known[f.Obligation] = f.What
 		}
 	}
-	replayDir := filepath.Join(vd, "out", "replay", id)
+	replayDir := filepath.Join(od, "out", "replay", id)
 	os.RemoveAll(replayDir)
 	os.MkdirAll(replayDir, 0o755)
 	violations := 0
@@ -234,9 +238,11 @@ func cmdCheck(args []string) {
 		"violations":  violations,
 		"assumptions": trusted,
 		"coverage": map[string]interface{}{
-			"obligations":                len(res.Obls),
+			"obligations":                len(res.Obls) - knownHit,
+			"obligations_generated":      len(res.Obls),
 			"discharged":                 discharged,
 			"known_findings":             knownHit,
+			"known_findings_note":        "obligations that fail because of a defect listed in /verif/known_findings.json are neither claimed nor counted as discharged; obligations = generated - known_findings",
 			"checker_cmd":                fmt.Sprintf("/verif/check %s %s  (gocv: VC generation over go/ssa of /repo's working tree; solvers z3-new 5.1.0, z3 4.8.12, cvc5 1.0.3; per-configuration timeout %v)", id, tier, tmo),
 			"trusted_base":               trusted,
 			"functions_under_contract":   spec.Functions,
@@ -254,8 +260,8 @@ func cmdCheck(args []string) {
 			"samples":                    samples,
 		},
 	}
-	os.MkdirAll(filepath.Join(vd, "evidence"), 0o755)
-	writeJSON(filepath.Join(vd, "evidence", id+".json"), ev)
+	os.MkdirAll(filepath.Join(od, "evidence"), 0o755)
+	writeJSON(filepath.Join(od, "evidence", id+".json"), ev)
 	fmt.Printf("property=%s tier=%s functions=%d obligations=%d discharged=%d known-findings=%d violations=%d covers=%d/%d wall=%.1fs\n",
 		id, tier, len(fns), len(res.Obls), discharged, knownHit, violations, coversSat, coversSat+coversOther, time.Since(start).Seconds())
 	if violations > 0 {
